@@ -10,7 +10,7 @@ def build_host(rnd, nfiles=None, include=None, base=None, nstmt=None):
     Returns dict(prog, ref, texts {name: [lines]}, linked [names], included [names])."""
     include = rnd.random() < 0.4 if include is None else include
     for _ in range(20):
-        prog, ref, info = tight.gen_program(rnd, nfiles=nfiles, opts={"include": include, "include_twice": False, "insert": False, "dotskip": False, "align_pow2": True}, base=0o1000, nstmt=nstmt)
+        prog, ref, info = tight.gen_program(rnd, nfiles=nfiles, opts={"include": include, "include_twice": False, "extern_all": False, "insert": False, "dotskip": False, "align_pow2": True}, base=0o1000, nstmt=nstmt)
         # normalise the base site: exactly one '.link B' as the first statement of the first file
         for f in prog.files:
             f.stmts = [s for s in f.stmts if s.k != "link" and not (s.k == "dot")]
